@@ -549,14 +549,14 @@ fn main() {
 	vt::engine::watchdog(3600);
 	let reg: Vec<LibCase> = check.regression_cases("library");
 	check.enumerate("regress-library", reg, false, lib_oracle);
-	check.phase("library", check.cases(6000, 150_000), lib_strategy, lib_oracle);
+	check.phase("library", check.cases(60_000, 1_000_000), lib_strategy, lib_oracle);
 	vt::cli::build_binary();
 	let reg: Vec<Case> = check.regression_cases("cli");
 	check.enumerate("regress-cli", reg, false, cli_oracle);
-	check.phase("cli", check.cases(3000, 60_000), strategy, cli_oracle);
+	check.phase("cli", check.cases(10_000, 150_000), strategy, cli_oracle);
 	let reg: Vec<SrvCase> = check.regression_cases("serve");
 	check.enumerate("regress-serve", reg, false, srv_oracle);
 	check.workers = check.workers.min(8);
-	check.phase("serve", check.cases(240, 6000), srv_strategy, srv_oracle);
+	check.phase("serve", check.cases(600, 12_000), srv_strategy, srv_oracle);
 	check.finish();
 }
